@@ -1,0 +1,77 @@
+//! C16 helper (child of `kademlia::query`): read-only summary of the live queries.
+
+use super::{QueryEngine, QueryType};
+use crate::PeerId;
+
+/// Summary of one live query.
+pub struct Live {
+    /// Query id.
+    pub id: usize,
+    /// `L` iterative lookup, `M` find-many (put to given peers), `T` send-phase tracker.
+    pub kind: char,
+    /// Peers the query is waiting for.
+    pub pending: Vec<PeerId>,
+    /// `(n_succeeded, peers_to_succeed)` of a tracker.
+    pub quorum: Option<(usize, usize)>,
+}
+
+fn field(debug: &str, name: &str) -> Option<usize> {
+    let at = debug.find(name)? + name.len();
+    let digits: String = debug[at..].chars().take_while(|c| c.is_ascii_digit()).collect();
+    digits.parse().ok()
+}
+
+impl QueryEngine {
+    /// Live queries, sorted by id.
+    pub(crate) fn verif_live(&self, universe: &[PeerId]) -> Vec<Live> {
+        let mut res: Vec<Live> = self
+            .queries
+            .iter()
+            .map(|(id, query)| {
+                let (kind, pending, quorum) = match query {
+                    QueryType::FindNode { context } =>
+                        ('L', context.pending.keys().copied().collect(), None),
+                    QueryType::PutRecord { context, .. } =>
+                        ('L', context.pending.keys().copied().collect(), None),
+                    QueryType::AddProvider { context, .. } =>
+                        ('L', context.pending.keys().copied().collect(), None),
+                    QueryType::GetRecord { context } =>
+                        ('L', context.pending.keys().copied().collect(), None),
+                    QueryType::GetProviders { context } =>
+                        ('L', context.pending.keys().copied().collect(), None),
+                    QueryType::PutRecordToPeers { .. } => ('M', Vec::new(), None),
+                    QueryType::PutRecordToFoundNodes { context }
+                    | QueryType::AddProviderToFoundNodes { context } => {
+                        // the tracker's fields are private to `target_peers`; its `Debug` output
+                        // is the only add-free way to read them
+                        let debug = format!("{context:?}");
+                        let pending = universe
+                            .iter()
+                            .filter(|peer| {
+                                let at = debug.find("pending_peers").unwrap_or(0);
+                                debug[at..].contains(&format!("{peer:?}"))
+                            })
+                            .copied()
+                            .collect();
+                        (
+                            'T',
+                            pending,
+                            Some((
+                                field(&debug, "n_succeeded: ").unwrap_or(usize::MAX),
+                                field(&debug, "peers_to_succeed: ").unwrap_or(usize::MAX),
+                            )),
+                        )
+                    }
+                };
+                Live {
+                    id: id.0,
+                    kind,
+                    pending,
+                    quorum,
+                }
+            })
+            .collect();
+        res.sort_by_key(|live| live.id);
+        res
+    }
+}
